@@ -133,6 +133,25 @@ func libGoroutines() int {
 	return strings.Count(buf.String(), "go-webdav.(*Client).Create.func")
 }
 
+// swapTr lets ONE long-lived client talk to a new scripted transport in every behaviour: a client is meant to be reused, so
+// whatever an upload (failed or not) leaves behind in it must not change the next one
+type swapTr struct {
+	mu  sync.Mutex
+	cur *scripted
+}
+
+func (s *swapTr) Do(req *http.Request) (*http.Response, error) {
+	s.mu.Lock()
+	c := s.cur
+	s.mu.Unlock()
+	return c.Do(req)
+}
+
+var (
+	sharedTr  = &swapTr{}
+	sharedCli *webdav.Client
+)
+
 func runScript(sc Script, unit int) (res Result) {
 	res = Result{K: "replay", ID: sc.ID, OK: true, Unit: unit}
 	fail := func(i int, a, why string) Result {
@@ -140,7 +159,20 @@ func runScript(sc Script, unit int) (res Result) {
 	}
 	tr := &scripted{entered: make(chan *http.Request, 1), cmds: make(chan cmd)}
 	defer close(tr.cmds)
-	cli, err := webdav.NewClient(tr, "http://example.com/")
+	var cli *webdav.Client
+	var err error
+	if sc.ID%3 != 0 {
+		// two behaviours out of three go through the shared client, the third through a fresh one
+		sharedTr.mu.Lock()
+		sharedTr.cur = tr
+		sharedTr.mu.Unlock()
+		if sharedCli == nil {
+			sharedCli, err = webdav.NewClient(sharedTr, "http://example.com/")
+		}
+		cli = sharedCli
+	} else {
+		cli, err = webdav.NewClient(tr, "http://example.com/")
+	}
 	if err != nil {
 		return fail(-1, "NewClient", err.Error())
 	}
